@@ -92,10 +92,15 @@ class Check(PropertyCheck):
 
     def rule(self):
         return ("hostile generator families (quote/brace/backslash/legend fragments, openers nested or repeated 8 to 3000 deep "
-                "in a row, a legend declaration, a legend or a shape, dense random grids over the full "
+                "in a row, a legend declaration, a legend or a shape, single connected groups of 10 000 to 60 000 cells, dense random grids over the full "
                 "alphabet, mutated bundled diagrams, arbitrary Unicode scalars incl. NUL, controls, astral, zero-width) x "
                 "five entry points x scales {tiny, 0.5, 8, 1e6}; size sweep with timing; non-trivial = input of at least two "
                 "non-blank characters, distinct by input")
+
+    def giant_groups(self):
+        """one connected group of tens of thousands of cells: recursion per cell or per group shows here"""
+        return ["-" * 60000, "|\n" * 20000, gen.box(3000, 2), "\n".join("+" * 110 for _ in range(100)),
+                "\n".join(" " * i + "\\" for i in range(3000))]
 
     def inputs(self, n):
         return list(HOSTILE) + [gen_hostile(self.rng) for _ in range(n)] + [gen.zoo(self.rng, crlf=self.rng.chance(1, 2)) for _ in range(n // 4)] + \
@@ -190,6 +195,8 @@ class Check(PropertyCheck):
             fails += self.oracle(todo[i:i + 1500])
             if fails:
                 break
+        if not fails:
+            fails += self.oracle(self.giant_groups())
         if not any("time budget" in f.what for f in fails):
             fails += self.size_sweep()
         return fails
